@@ -16,6 +16,7 @@
     below are about the repaired function. *)
 From Coq Require Import List Arith.
 From SP Require Import Design.Flat Design.Layout Design.RangesProofs Design.LayoutExamples.
+From SP Require Import Front.CreateFlat Front.CreateWf.
 Import ListNotations.
 
 (** Block-level constraints: the windows are exactly
@@ -62,6 +63,20 @@ Theorem C26_ranges_cover :
     exists s e, In (s, e) rs /\ s <= t < e.
 Proof. exact ranges_cover. Qed.
 Print Assumptions C26_ranges_cover.
+
+(** The geometry a constructor installs.  For every record [fb] that the model of the constructor
+    ([create_flat], Front/CreateFlat.v) builds from arguments satisfying [input_ok] (Front/CreateOk.v), outside
+    POST_PREAMBLE: the constraints given without a geometry get one geometry [g] (the block's own,
+    [get_geometry(0)]) that meets the hypotheses of the theorems above, and on the block itself its windows
+    are one window, the whole sequence (the repetitions only appear once the block is combined). *)
+Theorem C26_ranges_of_created :
+  forall (ci : create_input) (fb : flat),
+    input_ok ci = true -> create_flat ci = FOk fb -> fl_alignment fb <> PostPreamble ->
+    exists g, fl_constraints fb = map (init_wb g) (st_cons ci) ++ ci_derivations ci /\
+              g_preamble g < g_trials g /\ g_preamble g < fl_trials fb /\
+              map_block_trial_ranges fb (Some g) = Some [(0, fl_trials fb)].
+Proof. exact ranges_of_created. Qed.
+Print Assumptions C26_ranges_of_created.
 
 (** The hypotheses are met by the flat record of
     Repeat(CrossBlock([f, t], [f], [AtMostKInARow(1, (t, "same"))]), [MinimumTrials(5)]):
